@@ -105,6 +105,10 @@ struct World {
     tasks: HashMap<usize, Task>,
     sleep_flag: HashMap<usize, Arc<AtomicBool>>,
     subscribe: Option<Rc<dyn Fn(usize, usize, u64)>>,
+    /// late=1 scripts: peers act after the protocol is over for them
+    late: bool,
+    /// the sink id whose subscription move is being performed (alias mode of share)
+    subscribing: Option<usize>,
     /// talkback moves still to come in the script, per (subscription, sink): a sink that will not use
     /// its talkback again drops it (at once if it never uses it) - no operator may depend on the sink
     /// keeping the talkback alive
@@ -290,6 +294,7 @@ fn perform(sub: usize, inp: Inp, tok: String) {
                 }
             });
             if let Some(f) = f {
+                w(|w| w.subscribing = Some(s));
                 f(sub, s, aux);
                 // `f` - and with it, after the last subscription move, the source value - is dropped here
             }
@@ -374,8 +379,21 @@ show_tuple!(usize:0, usize:1, usize:2, usize:3, usize:4, usize:5, usize:6, usize
 
 /// the recording sink `s` of subscription `sub`
 fn mk_sink<O: Show + 'static>(sub: usize, s: usize) -> Arc<Sink<O>> {
+    mk_sink_as::<O>(sub, Some(s))
+}
+
+/// `fixed = None`: ONE sink object that stands for every sink id of the script (share: the same `Arc`
+/// attached several times).  A greeting belongs to the sink id whose subscription move is being
+/// performed; other messages cannot be told apart and are recorded for "X" - the model's trace is
+/// compared with its sink ids erased.
+fn mk_sink_as<O: Show + 'static>(sub: usize, fixed: Option<usize>) -> Arc<Sink<O>> {
     Arc::new(
         (move |msg: Message<O, Never>| {
+            let s = fixed.unwrap_or_else(|| w(|w| w.subscribing.unwrap_or(0)));
+            let lbl = match fixed {
+                Some(s) => format!("{}", s),
+                None => "X".to_string(),
+            };
             let tok = match msg {
                 Message::Handshake(tb) => {
                     let tb: Arc<Source<O>> = tb;
@@ -391,21 +409,21 @@ fn mk_sink<O: Show + 'static>(sub: usize, s: usize) -> Arc<Sink<O>> {
                         w.sink_live = true;
                         w.sink_credit += 1;
                     });
-                    format!("<dn{}:H", s)
+                    format!("<dn{}:H", lbl)
                 }
                 Message::Data(v) => {
                     w(|w| w.sink_credit += 1);
-                    format!("<dn{}:D{}", s, v.show())
+                    format!("<dn{}:D{}", lbl, v.show())
                 }
                 Message::Terminate => {
                     w(|w| w.sink_live = false);
-                    format!("<dn{}:T", s)
+                    format!("<dn{}:T", lbl)
                 }
                 Message::Error(e) => {
                     w(|w| w.sink_live = false);
-                    format!("<dn{}:{}", s, err_id(&e))
+                    format!("<dn{}:{}", lbl, err_id(&e))
                 }
-                Message::Pull => format!("<dn{}:?Pull", s),
+                Message::Pull => format!("<dn{}:?Pull", lbl),
             };
             peer_called(sub, tok);
         })
@@ -413,10 +431,21 @@ fn mk_sink<O: Show + 'static>(sub: usize, s: usize) -> Arc<Sink<O>> {
     )
 }
 
+/// a source that has ended, or was told to stop, lets go of the sink it was given (conformant scripts
+/// only: scripts with late moves use the handler after the end on purpose)
+fn release_handler(sub: usize, port: usize) {
+    w(|w| {
+        if !w.late {
+            w.up_handler.remove(&(sub, port));
+        }
+    })
+}
+
 /// the talkback puppet source `port` hands to the component when it greets
 fn mk_up_talkback<T: 'static>(sub: usize, port: usize) -> Arc<Source<T>> {
     Arc::new(
         (move |msg: Message<Never, T>| {
+            let stop = matches!(msg, Message::Terminate | Message::Error(_));
             let tok = match msg {
                 Message::Pull => format!("<up{}:P", port),
                 Message::Terminate => format!("<up{}:T", port),
@@ -425,6 +454,9 @@ fn mk_up_talkback<T: 'static>(sub: usize, port: usize) -> Arc<Source<T>> {
                 Message::Data(_) => format!("<up{}:?Data", port),
             };
             peer_called(sub, tok);
+            if stop {
+                release_handler(sub, port);
+            }
         })
         .into(),
     )
@@ -445,8 +477,14 @@ fn mk_source<T: 'static>(port: usize, conv: fn(u64) -> T) -> Arc<Source<T>> {
                         h(Message::Data(d));
                         w(|w| w.inner_emitting.truncate(emitting));
                     }
-                    DMsg::T => h(Message::Terminate),
-                    DMsg::E(id) => h(Message::Error(err_arc(id))),
+                    DMsg::T => {
+                        h(Message::Terminate);
+                        release_handler(sub, port);
+                    }
+                    DMsg::E(id) => {
+                        h(Message::Error(err_arc(id)));
+                        release_handler(sub, port);
+                    }
                 });
                 w(|w| w.up_handler.insert((sub, port), wrapped));
                 peer_called(sub, format!("<sub{}", port));
@@ -490,8 +528,14 @@ fn inner_src(k: u64) -> Arc<Source<usize>> {
                 let wrapped: Rc<dyn Fn(DMsg)> = Rc::new(move |m: DMsg| match m {
                     DMsg::H => h(Message::Handshake(mk_up_talkback::<usize>(sub, port))),
                     DMsg::D(v) => h(Message::Data(num(v))),
-                    DMsg::T => h(Message::Terminate),
-                    DMsg::E(id) => h(Message::Error(err_arc(id))),
+                    DMsg::T => {
+                        h(Message::Terminate);
+                        release_handler(sub, port);
+                    }
+                    DMsg::E(id) => {
+                        h(Message::Error(err_arc(id)));
+                        release_handler(sub, port);
+                    }
                 });
                 w(|w| w.up_handler.insert((sub, port), wrapped));
                 peer_called(sub, format!("<sub{}", port));
@@ -534,8 +578,10 @@ impl Iterator for LogIter {
         match self.inf {
             Some(_) => (usize::MAX, None),
             None => {
+                // exact for inputs of even length, honest but loose (lower bound 0) for odd ones - what
+                // a filtered or flat-mapped iterator reports
                 let rem = self.xs.len().saturating_sub(self.pos);
-                (rem, Some(rem))
+                (if self.xs.len() % 2 == 0 { rem } else { 0 }, Some(rem))
             }
         }
     }
@@ -752,7 +798,19 @@ fn build(kv: &Kv) -> Rc<dyn Fn(usize, usize, u64)> {
             let outer: Arc<Source<Arc<Source<usize>>>> = mk_source::<Arc<Source<usize>>>(0, inner_src);
             sub_to(Arc::new(flatten(outer)))
         }
-        "share" => sub_to(Arc::new(share(src0()))),
+        "share" => {
+            let out: Arc<Source<usize>> = Arc::new(share(src0()));
+            if geti(kv, "alias", 0) == 1 {
+                // every sink id of the script is the same sink object, attached again and again
+                let one: RefCell<Option<Arc<Sink<usize>>>> = RefCell::new(None);
+                Rc::new(move |sub, _s, _aux| {
+                    let sink = one.borrow_mut().get_or_insert_with(|| mk_sink_as::<usize>(sub, None)).clone();
+                    out(Message::Handshake(sink))
+                })
+            } else {
+                sub_to(out)
+            }
+        }
         "interval" => sub_to(Arc::new(interval(Duration::from_millis(1000), MockNursery))),
         "tree" => sub_to(tree::build_tree(kv.get("tree").map(|s| s.as_str()).unwrap_or("fi:-"))),
         other => panic!("unknown op {}", other),
@@ -824,6 +882,7 @@ fn run_script(line: &str) -> String {
     w(|w| {
         w.script = moves;
         w.subs_left = n_subs;
+        w.late = geti(&kv, "late", 0) == 1;
         w.ups_left = ups;
         w.recording = true;
         w.subs = geti(&kv, "subs", 1) as usize;
